@@ -5,7 +5,7 @@ from __future__ import annotations
 import ast
 from typing import Dict, List, Optional, Set, Tuple
 
-from ..astutil import Origins, call_name, const_num, names_in
+from ..astutil import Origins, call_name, const_num, fold_if, names_in, with_folded
 from ..cfg import Conditions, Flow, ReachingDefs
 from ..loader import ClassInfo, FuncInfo, Program, dotted, enclosing_stmt, parent, short, walk_own
 from ..report import BAD, INFO, OK, UNDET, Instance
@@ -195,6 +195,17 @@ def rule_lock(prog: Program) -> List[Instance]:
                 # polarity must mean "not started yet"
                 if _means_not_started(e, pol):
                     fresh.append(f"{key} is {pol}")
+            elif isinstance(e, ast.Call) and isinstance(e.func, ast.Attribute) and not pol:
+                # the re-check may be a private helper that reads the shared state and answers whether an upload was found:
+                # `if self._adopt(mpu, shared): return mpu` - on the false side nothing had been started
+                for hm in prog.methods_named(e.func.attr) + [f_ for f_ in prog.all_functions({fi.mod.name}) if f_.name == e.func.attr and f_.cls is None]:
+                    if not hm.name.startswith("_"):
+                        continue
+                    reads_state = any((isinstance(x, ast.Call) and call_name(x) in ("_safe_get", "get")) or (isinstance(x, ast.Attribute) and x.attr in ("started", "uploadId")) for _g, x in prog.closure_nodes(hm))
+                    found_true = any(isinstance(r, ast.Return) and isinstance(r.value, ast.Constant) and r.value.value is True for r in walk_own(hm.node))
+                    if reads_state and found_true:
+                        fresh.append(f"{key} is {pol} ({hm.qual} reads the shared upload state)")
+                        break
         if fresh:
             out.append(Instance("R-LOCK", f"{cid_base}:DCL", OK, f"state re-checked inside the region before initiating: {fresh[0]}", fi.where(call)))
         else:
@@ -943,8 +954,10 @@ def _mpu_stride(prog: Program, ci: ClassInfo) -> List[Instance]:
     n_lit = 0
     for fi in prog.all_functions({"cog._mpu"}):
         cond = None
-        for n in walk_own(fi.node):
+        for n in with_folded(walk_own(fi.node)):
             lits: List[Tuple[ast.AST, str]] = []
+            if isinstance(n, ast.Assign) and isinstance(parent(n), ast.If) and fold_if(parent(n)) is not None:
+                continue  # an arm of a two-way choice: looked at through its conditional-expression view
             if isinstance(n, ast.Call):
                 for k in n.keywords:
                     if k.arg == "leftPartId" and const_num(k.value) is not None:
@@ -1005,6 +1018,18 @@ def rule_flow16(prog: Program) -> List[Instance]:
                 if isinstance(k, ast.Constant) and k.value in ("blockxsize", "blockysize"):
                     ok = isinstance(v, ast.Call) and call_name(v) == "adjust_blocksize"
                     dim_ok = True
+                    if isinstance(v, ast.Name) and v.id not in dco.param_names():
+                        # a local: bound (possibly by unpacking) from a helper every returned component of which went through adjust_blocksize
+                        srcs = [a_.value for a_ in walk_own(dco.node) if isinstance(a_, ast.Assign) and any(isinstance(t_, ast.Name) and t_.id == v.id for tg_ in a_.targets for t_ in ast.walk(tg_))]
+                        via = bool(srcs) and all(
+                            isinstance(c_, ast.Call) and (call_name(c_) == "adjust_blocksize" or any(
+                                all(isinstance(el_, ast.Call) and call_name(el_) == "adjust_blocksize" for r_ in walk_own(t_.node) if isinstance(r_, ast.Return) and r_.value is not None
+                                    for el_ in (r_.value.elts if isinstance(r_.value, ast.Tuple) else [r_.value]))
+                                for t_ in prog.resolve_call(c_, dco)))
+                            for c_ in srcs)
+                        out.append(Instance("R-FLOW16", f"{dco.qual}#{k.value}", OK if via else UNDET,
+                                            f"{k.value} = `{v.id}`, produced by adjust_blocksize (through a helper)" if via else f"{k.value} = `{v.id}`: origin of the local not followed", dco.where(v)))
+                        continue
                     if ok and len(v.args) > 1:
                         axis_names = {}
                         for a_ in walk_own(dco.node):
@@ -1236,14 +1261,34 @@ def rule_filesink(prog: Program) -> List[Instance]:
     # the loop walks the rest in the given order (no sorted/reversed) and unlinks inside the loop
     loops = [n for n in walk_own(f.node) if isinstance(n, ast.For)]
     okl = False
+    seen_loop = False
+    # the append loop may live in a private helper that is handed the remaining parts
+    for g, lp in prog.closure_nodes(f):
+        if g is f or not isinstance(lp, ast.For) or not isinstance(lp.iter, ast.Name) or split is None:
+            continue
+        pos = [a.arg for a in g.positional_params()]
+        for cs_, call_ in prog.callers_of(g):
+            if cs_ is not f or lp.iter.id not in pos:
+                continue
+            i_ = pos.index(lp.iter.id) - (1 if g.is_method and not g.is_static else 0)
+            a_ = call_.args[i_] if 0 <= i_ < len(call_.args) else next((k.value for k in call_.keywords if k.arg == lp.iter.id), None)
+            if isinstance(a_, ast.Name) and a_.id in (split[1], parts_p):
+                seen_loop = True
+                writes = any(isinstance(x, ast.Call) and call_name(x) in ("write", "writelines", "copyfileobj", "sendfile") for x in ast.walk(lp))
+                unl = any(isinstance(x, ast.Call) and call_name(x) == "unlink" for x in ast.walk(lp))
+                okl = okl or (writes and unl)
     for lp in loops:
         it = lp.iter
+        seen_loop = True
         if split is not None and isinstance(it, ast.Name) and it.id in (split[1], parts_p):
             # any way of pushing the part's bytes into the append handle
             writes = any(isinstance(x, ast.Call) and call_name(x) in ("write", "writelines", "copyfileobj", "sendfile") for x in ast.walk(lp))
             unl = any(isinstance(x, ast.Call) and call_name(x) == "unlink" for x in ast.walk(lp))
             okl = writes and unl
-    out.append(Instance("R-MPU", f"{f.qual}#SINK:in-order", OK if okl else BAD,
+    if not seen_loop:
+        out.append(Instance("R-MPU", f"{f.qual}#SINK:in-order", UNDET, "no loop over the remaining parts found in finalise or a private helper it hands them to", f.where()))
+    else:
+      out.append(Instance("R-MPU", f"{f.qual}#SINK:in-order", OK if okl else BAD,
                         "remaining parts are appended in the order given and unlinked inside the loop" if okl else "parts are not appended in the given order (or not removed) by the finalise loop", f.where()))
     # __call__: the receipt names the part number and the path actually written
     c = prog.func("cog._mpu_fs:MPUFileSink.__call__")
